@@ -62,19 +62,19 @@ ARITH_TWINS = [k for k in KANI if k.startswith('arith_')]
 
 PROPS = {
     'C12': dict(
-        units=['interp', 'macros'],
+        units=['interp', 'macros', 'interp_vm_g0'],
         not_covered=['that 32 frames fit the default stack (a machine resource)', 'JSON -> CelValue equality (serde_json is opaque)',
                      'rebinding / re-adding replaces: HashMap::insert semantics of BindContext / CelContext (std)'],
         assumptions=['ScopedCounter RAII (the increment is undone on scope exit)'],
     ),
     'C10': dict(
-        units=['preresolved'],
+        units=['preresolved', 'interp', 'interp_vm_g0'],
         not_covered=['that every block the compiler emits satisfies resolve()\'s precondition (unique, defined, forward labels) and is stack-balanced: parser contracts (not reached)',
                      'PreResolvedByteCode::extend / FromIterator (generic IntoIterator loops)'],
         assumptions=['HashMap<u32,usize> semantics (vstd)', 'locations[&label] rewritten to *locations.get(&label).unwrap() (std defines Index that way)'],
     ),
     'C06': dict(
-        units=['value_coll', 'value_arith'],
+        units=['value_coll', 'value_arith', 'interp_vm_g4'],
         not_covered=['list / map literals (MkList, MkDict arms and compile-time construction): unit interp', 'size(): unit builtins',
                      'list membership is stated over PartialEq for CelValue, whose own structural impl is outside this unit'],
         assumptions=['HashMap<String,_> key model (axiom), Vec<CelValue>.len() <= isize::MAX (allocation limit)'],
@@ -98,7 +98,7 @@ PROPS = {
         assumptions=['min/max/sort are decided in unit builtins (see functions_under_contract)'],
     ),
     'C05': dict(
-        units=['value_cmp', 'value_arith'],
+        units=['value_cmp', 'value_arith', 'interp_vm_g0', 'interp_vm_g1'],
         not_covered=[],
         assumptions=[],
     ),
